@@ -5,6 +5,7 @@ package main
 
 import (
 	"crypto/sha256"
+	"encoding/json"
 	"fmt"
 	"go/constant"
 	"go/token"
@@ -57,6 +58,8 @@ type Model struct {
 	effects map[*ssa.Function]*Effects
 	repo    string
 	srcHash string
+	localTable map[string][]localShape // recorded shapes of named locals (rename tolerance)
+	paramTable map[string][]string     // recorded parameter names
 	noElemPtrs bool     // no pointer into slice/array element storage ever escapes (checked over all analysed functions)
 	elemPtrSites []string
 }
@@ -216,7 +219,25 @@ func loadModel(repo string) (*Model, error) {
 	}
 	sort.Strings(m.ifaceStructs)
 	m.checkElemPointers()
+	if data, err := os.ReadFile(filepath.Join(toolRoot(), "locals.json")); err == nil {
+		json.Unmarshal(data, &m.localTable)
+	}
+	if data, err := os.ReadFile(filepath.Join(toolRoot(), "params.json")); err == nil {
+		json.Unmarshal(data, &m.paramTable)
+	}
 	return m, nil
+}
+
+// toolRoot: the directory that holds the committed tables (locals.json, params.json, known_findings.json):
+// the parent of the directory of the running binary (/verif/bin/govc -> /verif), or $GOVC_HOME.
+func toolRoot() string {
+	if v := os.Getenv("GOVC_HOME"); v != "" {
+		return v
+	}
+	if exe, err := os.Executable(); err == nil {
+		return filepath.Dir(filepath.Dir(exe))
+	}
+	return "/verif"
 }
 
 // checkElemPointers: structural check that no pointer into the element storage of a slice or array
@@ -717,6 +738,8 @@ func floatPrelude(mode string) (sortDecl, ops string) {
 (declare-fun frtn (F64) F64)
 (declare-fun frtp (F64) F64)
 (declare-fun frna (F64) F64)
+(assert (forall ((a F64) (b F64)) (! (= (fadd a b) (fadd b a)) :pattern ((fadd a b)))))
+(assert (forall ((a F64) (b F64)) (! (= (fmul a b) (fmul b a)) :pattern ((fmul a b)))))
 (assert (forall ((a F64) (b F64)) (! (=> (flt a b) (and (not (flt b a)) (not (feq a b)) (fle a b))) :pattern ((flt a b)))))
 (assert (forall ((a F64) (b F64)) (! (= (feq a b) (feq b a)) :pattern ((feq a b)))))
 (assert (forall ((a F64) (b F64)) (! (=> (feq a b) (and (fle a b) (fle b a))) :pattern ((feq a b)))))
